@@ -263,7 +263,7 @@ class SpecGen:
         if self.feat["raise_warning"] and r.random() < 0.15:
             o["raise_warning"] = True
         if r.random() < 0.15 * getattr(self, "p_boost", 1.0):
-            o["n_failure_cases"] = r.choice([1, 2])
+            o["n_failure_cases"] = r.choice([1, 2, 0])      # 0: "report no failure cases" (an error with an empty table)
         return o
 
     def builtin_check(self, dtype):
@@ -397,6 +397,9 @@ class SpecGen:
         spec = {"backend": backend, "kind": kind}
         if kind == "dfs" or kind == "model":
             ncols = r.choice([1, 2, 2, 3, 4])
+            dtype_only = kind == "dfs" and self.feat["schema_dtype"] and random.Random(r.getrandbits(32)).random() < 0.25
+            if dtype_only:
+                ncols = 0           # a schema that only declares a dataframe-level dtype: its columns are whatever the frame has
             isre = [kind == "dfs" and self.feat["regex"] and r.random() < 0.3 for _ in range(ncols)]
             names = [(f"^r{k}_.*$" if isre[k] else f"c{k}") for k in range(ncols)]
             cols = []
@@ -415,6 +418,8 @@ class SpecGen:
             spec["checks"] = self.checks(None, backend, "df") if self.feat["df_checks"] else []
             spec["parsers"] = self.parsers(backend, level="df") if kind == "dfs" else []
             spec["dtype"] = r.choice(["int64", "float64"]) if (kind == "dfs" and self.feat["schema_dtype"] and r.random() < 0.3) else None
+            if dtype_only and spec["dtype"] is None:
+                spec["dtype"] = "int64"
             spec["coerce"] = self.feat["coerce"] and r.random() < 0.3
             spec["strict"] = (True if self.feat["strict"] and r.random() < 0.5 else
                               ("filter" if self.feat["filter"] and r.random() < 0.5 else False))
@@ -474,6 +479,10 @@ class SpecGen:
         cols = []
         kind = spec["kind"]
         if kind in ("dfs", "model"):
+            if not spec["columns"]:
+                # dtype-only schema: frames with differing column names and counts
+                for nm in r.sample(["x", "y", "z", "w"], r.choice([1, 2, 3])):
+                    cols.append({"name": nm, "dtype": spec.get("dtype") or "int64", "values": self.values(spec.get("dtype") or "int64", n, dup=True)})
             for c in spec["columns"]:
                 dt = spec.get("dtype") or c["dtype"] or "int64"
                 if c["regex"]:
@@ -510,7 +519,7 @@ class SpecGen:
         for _ in range(r.choice([1, 1, 2, 3])):
             cols = fr["columns"]
             m = r.choice(["drop_col", "extra_col", "retype", "null", "dup", "reorder", "bad_value", "rename", "index_drop", "index_retype",
-                          "coercible", "coercible", "tz"])
+                          "coercible", "coercible", "tz", "index_rename", "nulls2"])
             if m == "drop_col" and len(cols) > 1:
                 cols.pop(r.randrange(len(cols)))
             elif m == "extra_col":
@@ -545,6 +554,14 @@ class SpecGen:
                     c = r.choice(targets)
                     c["values"] = [None if v is None else str(v) for v in c["values"]]
                     c["dtype"] = "str"
+            elif m == "nulls2" and cols and n >= 2:
+                c = r.choice(cols)          # duplicates that are nulls only
+                c["values"][0] = None
+                c["values"][n - 1] = None
+            elif m == "index_rename":
+                ixs = fr["index"]
+                if ixs:
+                    r.choice(ixs["multi"] if "multi" in ixs else [ixs])["name"] = "other_name"
             elif m == "tz":
                 dts = [c for c in cols if c["dtype"] == "datetime64[ns]"]
                 if dts:
